@@ -11,6 +11,8 @@
 #include <cstring>
 #include <iterator>
 #include <stdexcept>
+#include <limits>
+#include <memory>
 #include <vector>
 
 static unsigned long cases = 0, failures = 0;
@@ -53,6 +55,22 @@ struct u8_alloc
 };
 template <class T, class U> bool operator== (const u8_alloc<T>&, const u8_alloc<U>&) noexcept { return true; }
 template <class T, class U> bool operator!= (const u8_alloc<T>&, const u8_alloc<U>&) noexcept { return false; }
+
+// an allocator whose difference_type is NARROWER than its size_type: every iterator difference and
+// subscript goes through difference_type, so max_size() must not exceed its maximum (127 here)
+template <class T>
+struct narrow_diff_alloc : u8_alloc<T>
+{
+  typedef std::uint16_t size_type;
+  typedef std::int8_t   difference_type;
+  template <class U> struct rebind { typedef narrow_diff_alloc<U> other; };
+  narrow_diff_alloc (void) noexcept { }
+  template <class U> narrow_diff_alloc (const narrow_diff_alloc<U>&) noexcept { }
+  T *allocate (size_type n) { return u8_alloc<T>::allocate (static_cast<std::uint8_t> (n)); }
+  void deallocate (T *p, size_type n) noexcept { u8_alloc<T>::deallocate (p, static_cast<std::uint8_t> (n)); }
+};
+template <class T, class U> bool operator== (const narrow_diff_alloc<T>&, const narrow_diff_alloc<U>&) noexcept { return true; }
+template <class T, class U> bool operator!= (const narrow_diff_alloc<T>&, const narrow_diff_alloc<U>&) noexcept { return false; }
 
 struct e4 // non-trivial, 4 bytes: max_size() == 63
 {
@@ -116,11 +134,52 @@ static bool op_knows_count (int o)
             || o == O_ASSIGN_INPUT || o == O_CTOR_INPUT);
 }
 
+template <class T, unsigned N, class A>
+static void
+grid (const char *tname);
+
 template <class T, unsigned N>
 static void
 grid (const char *tname)
 {
-  typedef gch::small_vector<T, N, u8_alloc<T> > V;
+  grid<T, N, u8_alloc<T> > (tname);
+}
+
+template <class T, unsigned N, class A>
+static void
+grid (const char *tname)
+{
+  typedef gch::small_vector<T, N, A> V;
+  {
+    // max_size() is bounded by the allocator's difference_type, and at that size the iterator
+    // arithmetic still agrees with size()
+    typedef typename std::allocator_traits<A>::difference_type adiff;
+    V full;
+    const std::size_t m = full.max_size ();
+    ++cases;
+    if (m > static_cast<std::size_t> ((std::numeric_limits<adiff>::max) ())
+        || m > static_cast<std::size_t> ((std::numeric_limits<typename V::difference_type>::max) ()))
+    {
+      ++failures;
+      std::printf ("MAXFAIL max_size T=%s N=%u max_size=%lu exceeds the maximum of difference_type\n",
+                   tname, N, static_cast<unsigned long> (m));
+      std::fflush (stdout);
+      return; // the grid below would index past what this allocator can address
+    }
+    else
+    {
+      full.resize (static_cast<typename V::size_type> (m));
+      ++cases;
+      if (static_cast<std::size_t> (full.end () - full.begin ()) != m
+          || static_cast<std::size_t> (full.cend () - full.cbegin ()) != m
+          || (m != 0 && &full[static_cast<typename V::size_type> (m - 1)] != full.data () + (m - 1)))
+      {
+        ++failures;
+        std::printf ("MAXFAIL full container T=%s N=%u max_size=%lu: end()-begin() or &v[size-1] wrong\n",
+                     tname, N, static_cast<unsigned long> (m));
+      }
+    }
+  }
   typedef wrap_iter<T, std::forward_iterator_tag> F;
   typedef wrap_iter<T, std::input_iterator_tag> I;
   const std::size_t mx = V ().max_size ();
@@ -244,6 +303,9 @@ main (void)
 {
   grid<e4, 0> ("e4"); grid<e4, 2> ("e4"); grid<e4, 5> ("e4");
   grid<unsigned char, 0> ("uchar"); grid<unsigned char, 3> ("uchar");
+  grid<e4, 0, narrow_diff_alloc<e4> > ("e4, size_type u16 / difference_type i8");
+  grid<e4, 4, narrow_diff_alloc<e4> > ("e4, size_type u16 / difference_type i8");
+  grid<unsigned char, 3, narrow_diff_alloc<unsigned char> > ("uchar, size_type u16 / difference_type i8");
   std::printf ("MAX cases=%lu failures=%lu\n", cases, failures);
   return failures ? 1 : 0;
 }
